@@ -130,7 +130,7 @@ std::map<long, int> g_tag;                  // OS tid -> thread tag
 std::vector<std::thread> g_threads;
 std::mutex g_mx; std::condition_variable g_cv;
 bool g_case_end = false; int g_go = 0; int g_done = 0;
-int g_run = 0; int g_case_no = 0; std::string g_base; std::string g_cap_path;
+int g_run = 0; int g_case_no = 0; std::string g_base; std::string g_cap_path; uint64_t g_max = 100 << 10;
 
 void rawSink(const LogContent *c, void *) { g_raw.push_back(capture(c)); }
 
@@ -158,7 +158,7 @@ void endCase() {
     g_threads.clear(); g_case_end = false; g_go = 0; g_done = 0; g_run = 0;
     g_raw.clear(); g_tag.clear(); g_pool.clear();
     if (!g_base.empty()) { rmrf(g_base); g_base.clear(); }
-    LogSetMaxLength(100 << 10);
+    LogSetMaxLength(100 << 10); g_max = 100 << 10;
     fflush(stdout);
     if (g_real_out != 1) { if (ftruncate(1, 0) != 0) {} lseek(1, 0, SEEK_SET); }
     std::lock_guard<std::mutex> lk(ip::mx);
@@ -370,17 +370,23 @@ bool slotOf(const std::string &w, size_t &k) {
 
 int main() {
     std::string line;
+    // fd 1 is what the stdout sinks write to: point it at a capture file, keep the real stdout for the protocol
+    g_real_out = dup(1);
+    g_cap_path = "/tmp/C09-" + std::to_string(getpid()) + "-cap";
+    { int cfd = open(g_cap_path.c_str(), O_CREAT | O_TRUNC | O_WRONLY | O_APPEND, 0600);
+      if (cfd < 0 || g_real_out < 0) { fprintf(stderr, "cannot redirect stdout\n"); return 2; }
+      dup2(cfd, 1); close(cfd); }
     beginCase();
     while (std::getline(std::cin, line)) {
         auto w = vh::words(line);
         if (w.empty()) continue;
-        if (w[0] == "case") { beginCase(); OUT << line << std::endl; continue; }
+        if (w[0] == "case") { beginCase(); OUT << line << "\n"; flushOut(); continue; }
         const std::string &op = w[0];
         uint64_t n = 0; size_t k = 0; int64_t lv = 0;
         if (op == "max" && w.size() == 2 && w[1].size() <= 9 && vh::to_u64(w[1], n) && n <= 200000) {
-            LogSetMaxLength(n); OUT << "P max\n";
+            LogSetMaxLength(n); g_max = n; OUT << "P max\n";
         } else if (op == "sink" && w.size() == 2 && w[1] == "rec") {
-            SinkSlot s; s.rec.reset(new RecSink); s.rec->enable();
+            SinkSlot s; s.kind = "rec"; s.rec.reset(new RecSink); s.rec->enable();
             g_sinks.push_back(std::move(s));
             OUT << "P sink " << g_sinks.size() << " rec\n";
         } else if (op == "sink" && w.size() == 7 && w[1] == "file") {
@@ -389,7 +395,7 @@ int main() {
             if (!ok || v[1] == 0 || v[2] == 0 || v[2] > v[3] || v[4] == 0 || v[1] > 1000000 || v[3] > 64 || v[4] > 1000 || g_sinks.size() >= 6) {
                 OUT << "bad-op\n";
             } else {
-                SinkSlot s; s.is_file = true; s.file.reset(new tbox::log::AsyncFileSink);
+                SinkSlot s; s.kind = "file"; s.is_file = true; s.file.reset(new tbox::log::AsyncFileSink);
                 tbox::log::AsyncSink::Config cfg; cfg.buff_size = v[1]; cfg.buff_min_num = v[2]; cfg.buff_max_num = v[3]; cfg.interval = v[4];
                 s.dir = g_base + "/s" + std::to_string(g_sinks.size() + 1);
                 s.file->setConfig(cfg); s.file->setFilePath(s.dir); s.file->setFilePrefix("p"); s.file->setFileMaxSize(v[0]);
@@ -397,23 +403,71 @@ int main() {
                 g_sinks.push_back(std::move(s));
                 OUT << "P sink " << g_sinks.size() << " file\n";
             }
+        } else if (op == "sink" && w.size() >= 2 && (w[1] == "sout" || w[1] == "aout" || w[1] == "syslog")) {
+            uint64_t v[4] = {1, 1, 1, 1}; bool ok = (w[1] == "sout") ? w.size() == 2 : w.size() == 6;
+            if (ok && w[1] != "sout") for (int i = 0; i < 4; ++i) ok = ok && w[2 + i].size() <= 9 && vh::to_u64(w[2 + i], v[i]);
+            bool fd1 = w[1] != "syslog", has_fd1 = false;
+            for (auto &x : g_sinks) has_fd1 = has_fd1 || x.fd1();
+            if (!ok || v[0] == 0 || v[1] == 0 || v[1] > v[2] || v[3] == 0 || v[0] > 1000000 || v[2] > 64 || v[3] > 1000 || g_sinks.size() >= 6 || (fd1 && has_fd1)) {
+                OUT << "bad-op\n";
+            } else {
+                SinkSlot s; s.kind = w[1];
+                tbox::log::AsyncSink::Config cfg; cfg.buff_size = v[0]; cfg.buff_min_num = v[1]; cfg.buff_max_num = v[2]; cfg.interval = v[3];
+                if (w[1] == "sout") s.other.reset(new tbox::log::SyncStdoutSink);
+                else if (w[1] == "aout") { auto *p = new tbox::log::AsyncStdoutSink; p->setConfig(cfg); s.other.reset(p); }
+                else { auto *p = new tbox::log::AsyncSyslogSink; p->setConfig(cfg); s.other.reset(p); }
+                s.other->enable();
+                g_sinks.push_back(std::move(s));
+                OUT << "P sink " << g_sinks.size() << ' ' << w[1] << "\n";
+            }
+        } else if (op == "color" && w.size() == 3 && slotOf(w[1], k) && (w[2] == "0" || w[2] == "1") && !(g_sinks[k - 1].enabled && g_sinks[k - 1].dirty)) {
+            g_sinks[k - 1].base()->enableColor(w[2] == "1"); OUT << "P color\n";
+        } else if (op == "wfault" && w.size() >= 2 && w.size() <= 65) {
+            std::vector<uint64_t> pl; bool ok = true;
+            for (size_t i = 1; i < w.size() && ok; ++i) { uint64_t v; ok = w[i].size() <= 6 && vh::to_u64(w[i], v); if (ok) pl.push_back(v); }
+            if (!ok) OUT << "bad-op\n";
+            else { std::lock_guard<std::mutex> lk(ip::mx); ip::plan = pl; ip::plan_pos = 0; OUT << "P wfault\n"; }
         } else if (op == "lvl" && w.size() == 4 && slotOf(w[1], k) && w[3].size() <= 9 && vh::to_i64(w[3], lv) && (w[2] == "*" || nameOk(w[2], false))) {
             if (w[2] == "*") g_sinks[k - 1].base()->setLevel((int)lv); else g_sinks[k - 1].base()->setLevel(w[2], (int)lv);
             OUT << "P lvl\n";
         } else if (op == "unset" && w.size() == 3 && slotOf(w[1], k) && nameOk(w[2], false)) {
             g_sinks[k - 1].base()->unsetLevel(w[2]); OUT << "P unset\n";
         } else if (op == "on" && w.size() == 2 && slotOf(w[1], k)) {
-            bool r = g_sinks[k - 1].base()->enable(); OUT << "P on " << k << ' ' << (r ? 1 : 0) << "\n";
+            bool r = g_sinks[k - 1].base()->enable(); g_sinks[k - 1].enabled = true; OUT << "P on " << k << ' ' << (r ? 1 : 0) << "\n";
         } else if (op == "off" && w.size() == 2 && slotOf(w[1], k)) {
-            g_sinks[k - 1].base()->disable();
-            // everything logged before disable() must be on disk NOW: read the directory right away
-            if (g_sinks[k - 1].is_file) listFiles((int)k, g_sinks[k - 1]); else OUT << "P off " << k << "\n";
-        } else if (op == "run" && w.size() >= 2 && w[1].size() <= 2 && vh::to_u64(w[1], n) && n >= 1 && n <= 8 && w.size() <= 402) {
-            int T = (int)n; std::vector<std::vector<Msg>> per(T); bool ok = true;
-            for (size_t i = 2; i < w.size() && ok; ++i) { Msg m; ok = parseMsg(w[i], T, m); if (ok) per[m.t].push_back(m); }
-            if (!ok) { OUT << "bad-op\n"; OUT.flush(); continue; }
+            g_sinks[k - 1].base()->disable(); g_sinks[k - 1].enabled = false; g_sinks[k - 1].dirty = false;
+            // everything logged before disable() must be on disk / on fd 1 / handed to syslog NOW
+            if (g_sinks[k - 1].is_file) listFiles((int)k, g_sinks[k - 1]);
+            else if (g_sinks[k - 1].other) listStream((int)k, g_sinks[k - 1]);
+            else OUT << "P off " << k << "\n";
+        } else if ((op == "run" || op == "runc") && w.size() >= 2 && w[1].size() <= 2 && vh::to_u64(w[1], n) && n >= 1 && n <= 8) {
+            // runc <T> <A> <action>*A <spec>*: the main thread reconfigures sinks WHILE the threads log
+            struct CAct { char type; size_t k; std::string mod; int lv; uint64_t n; };
+            std::vector<CAct> acts; bool ok = true; size_t first = 2; uint64_t nA = 0;
+            if (op == "runc") {
+                ok = w.size() >= 3 && w[2].size() <= 2 && vh::to_u64(w[2], nA) && nA <= 16 && w.size() >= 3 + nA;
+                first = 3 + nA;
+                for (size_t i = 3; ok && i < 3 + nA; ++i) {
+                    std::vector<std::string> f; std::string cur;
+                    for (char c : w[i]) { if (c == ',') { f.push_back(cur); cur.clear(); } else cur.push_back(c); }
+                    f.push_back(cur);
+                    CAct a{}; int64_t lv; size_t kk;
+                    if (f.size() == 4 && f[0] == "lvl" && slotOf(f[1], kk) && (f[2] == "*" || nameOk(f[2], false)) && f[3].size() <= 9 && vh::to_i64(f[3], lv) && std::llabs(lv) <= 1000) {
+                        a.type = f[2] == "*" ? 'd' : 'l'; a.k = kk; a.mod = f[2]; a.lv = (int)lv;
+                    } else if (f.size() == 3 && f[0] == "unset" && slotOf(f[1], kk) && nameOk(f[2], false)) {
+                        a.type = 'u'; a.k = kk; a.mod = f[2];
+                    } else if (f.size() == 2 && f[0] == "max" && f[1].size() <= 9 && vh::to_u64(f[1], a.n) && a.n == g_max) {
+                        a.type = 'm';
+                    } else ok = false;
+                    if (ok) acts.push_back(a);
+                }
+            }
+            ok = ok && w.size() - first <= 400;
+            int T = (int)n; std::vector<std::vector<Msg>> per(T);
+            for (size_t i = first; i < w.size() && ok; ++i) { Msg m; ok = parseMsg(w[i], T, m); if (ok) per[m.t].push_back(m); }
+            if (!ok) { OUT << "bad-op\n"; flushOut(); continue; }
             int run = g_run++;
-            for (auto &s : g_sinks) if (s.rec) s.rec->got.clear();
+            for (auto &s : g_sinks) { if (s.rec) s.rec->got.clear(); if (s.enabled) s.dirty = true; }
             g_raw.clear();
             { std::lock_guard<std::mutex> lk(g_mx); g_done = 0; }
             for (int t = 0; t < T; ++t) g_threads.emplace_back(worker, run, run * 8 + t, per[t]);
@@ -421,6 +475,17 @@ int main() {
                 std::unique_lock<std::mutex> lk(g_mx);
                 g_cv.wait(lk, [T] { return g_done == T; });       // all registered
                 g_done = 0; g_go = run + 1; g_cv.notify_all();
+            }
+            for (auto &a : acts) {                                 // concurrent with the logging threads
+                usleep(60);
+                tbox::log::Sink *sk = a.type == 'm' ? nullptr : g_sinks[a.k - 1].base();
+                if (a.type == 'd') sk->setLevel(a.lv);
+                else if (a.type == 'l') sk->setLevel(a.mod, a.lv);
+                else if (a.type == 'u') sk->unsetLevel(a.mod);
+                else LogSetMaxLength(a.n);
+            }
+            {
+                std::unique_lock<std::mutex> lk(g_mx);
                 g_cv.wait(lk, [T] { return g_done == T; });       // all finished logging
             }
             for (auto &r : g_raw) OUT << "R 0 " << tagOf(r.tid) << ' ' << r.level << ' ' << fields(r) << "\n";
@@ -431,8 +496,9 @@ int main() {
         } else {
             OUT << "bad-op\n";
         }
-        OUT.flush();
+        flushOut();
     }
     endCase();
+    unlink(g_cap_path.c_str());
     return 0;
 }
